@@ -286,7 +286,7 @@ fn prepared_at_the_rounding_limit(rep: &Reporter) {
 fn prepared_boundary_cases(rep: &Reporter) {
     let h = |s: &u32| *s as u64;
     for seed in 0..rep.tier.pick(50u64, 2_000u64) {
-        for case in 0..4usize {
+        for case in 0..5usize {
             let kes = [0.25, 2.0, 4.0, 3.5];
             let main: Vec<Individual<TagP>> = vec![tagged(10, Some(7.0)), tagged(11, Some(3.0)), tagged(12, Some(5.0)), tagged(13, Some(9.0))];
             let molecules: Vec<Molecule<TagP>> = main.iter().zip(kes.iter()).map(|(i, k)| Molecule::new(*k, i.clone())).collect();
@@ -297,6 +297,9 @@ fn prepared_boundary_cases(rep: &Reporter) {
                 1 => ("OnWallIneffectiveCollisionUpdate:product-is-the-reactant", vec![main[1].clone()], vec![main[1].clone()], OnWallIneffectiveCollisionUpdate::new([0.0, 0.5, 0.9][(seed % 3) as usize])),
                 // synthesis needing exactly what the two reactants have: 3 + 2 + 5 + 4 == 14
                 2 => ("SynthesisUpdate:exactly-enough-energy", vec![main[1].clone(), main[2].clone()], vec![tagged(50, Some(14.0))], SynthesisUpdate::new()),
+                // a synthesis handed two products (its crossover passed both parents on): it may refuse; if it reports success,
+                // exactly the two populations on top are consumed
+                4 => ("SynthesisUpdate:two-products", vec![main[1].clone(), main[2].clone()], vec![tagged(50, Some(2.0)), tagged(51, Some(3.0))], SynthesisUpdate::new()),
                 // decomposition needing exactly the reactant's energy (no buffer): 3 + 2 == 1 + 4
                 _ => ("DecompositionUpdate:exactly-enough-energy", vec![main[1].clone()], vec![tagged(50, Some(1.0)), tagged(51, Some(4.0))], DecompositionUpdate::new()),
             };
@@ -313,7 +316,13 @@ fn prepared_boundary_cases(rep: &Reporter) {
             let r = catch(|| comp.execute(&TagP, &mut st).map_err(|e| format!("{e:#}")));
             rep.case();
             rep.nontrivial(hash_of(&("boundary", case, seed % 3)));
-            if !matches!(r, Ok(Ok(()))) {
+            if case == 4 {
+                // refusing is fine (what a refused synthesis leaves on the stack is not judged - the input is malformed);
+                // reporting success must satisfy the clauses below
+                if !matches!(r, Ok(Ok(()))) {
+                    continue;
+                }
+            } else if !matches!(r, Ok(Ok(()))) {
                 rep.violation(&format!("{name}:fails-on-a-well-formed-state"), json!({"seed": seed, "result": format!("{r:?}")}));
                 continue;
             }
